@@ -4881,6 +4881,21 @@ impl<'a> SpanTotal<'a> {
             self.unit,
             sign.rinto(),
         )?;
+        if relative1 == relative0 {
+            // A zero span measures a zero length window, and its total is
+            // zero in every unit. Otherwise, the window can only be empty
+            // when the time zone skips the entire unit (e.g., a day that
+            // doesn't exist), and then there is no sensible total.
+            if relspan.span.is_zero() {
+                return Ok(0.0);
+            }
+            return Err(err!(
+                "cannot compute total {unit} because a {singular} relative \
+                 to the given datetime has a length of zero",
+                unit = self.unit.plural(),
+                singular = self.unit.singular(),
+            ));
+        }
         let denom = (relative1 - relative0).get() as f64;
         let numer = (relative_end.to_nanosecond() - relative0).get() as f64;
         let unit_val = relspan.span.get_units_ranged(self.unit).get() as f64;
@@ -6463,6 +6478,14 @@ impl Nudge {
         // used so far in Jiff. We do expose floating point for things like
         // `Span::total`, but that's optional and not a core part of Jiff's
         // functionality. This is in the core part of Jiff's span rounding...
+        if relative1 == relative0 {
+            return Err(err!(
+                "cannot round to {unit} because a {singular} relative to the \
+                 given datetime has a length of zero",
+                unit = smallest.plural(),
+                singular = smallest.singular(),
+            ));
+        }
         let denom = (relative1 - relative0).get() as f64;
         let numer = (relative_end.to_nanosecond() - relative0).get() as f64;
         let exact = (truncated.get() as f64)
